@@ -90,7 +90,6 @@ pub proof fn lemma_blake2b_absorb_prefix(h: Seq<u64>, d1: Seq<u8>, d2: Seq<u8>, 
         blake2b_absorb_blocks(h, d1, n) == blake2b_absorb_blocks(h, d2, n),
     decreases n,
 {
-    hide(compress_rfc);
     if n > 0 {
         let m = (n - 1) as nat;
         lemma_blake2b_absorb_prefix(h, d1, d2, m);
@@ -108,7 +107,6 @@ pub proof fn lemma_blake2b_absorb_from(h: Seq<u64>, data: Seq<u8>, n: nat, d: Se
         blake2b_absorb_from(blake2b_absorb_blocks(h, data, n), 128 * n, d, k) == blake2b_absorb_blocks(h, data, n + k),
     decreases k,
 {
-    hide(compress_rfc);
     if k > 0 {
         let j = (k - 1) as nat;
         lemma_blake2b_absorb_from(h, data, n, d, j);
@@ -136,7 +134,6 @@ pub proof fn lemma_blake2b_rep_append_small(h: Seq<u64>, tv: nat, buf: Seq<u8>, 
     ensures
         blake2b_state_rep(h, tv, buf + input, hinit, data + input),
 {
-    hide(compress_rfc);
     let n = blake2b_blocks_before_last(data.len());
     let d2 = data + input;
     if input.len() == 0 {
@@ -284,7 +281,6 @@ pub proof fn lemma_blake2b_rep_append_big(
             data + input,
         ),
 {
-    hide(compress_rfc);
     let n = blake2b_blocks_before_last(data.len());
     let d2 = data + input;
     let c1: nat = if buf.len() > 0 { 1 } else { 0 };
@@ -360,6 +356,7 @@ pub proof fn lemma_blake2b_rfc_len(outlen: nat, key: Seq<u8>, salt: Seq<u8>, per
         blake2b_rfc(outlen, key, salt, personal, msg).len() == outlen,
 {
     hide(blake2b_rounds);
+    reveal(compress_rfc);
     lemma_blake2b_words_to_bytes_len(blake2b_final_h(outlen, key, salt, personal, msg));
 }
 
